@@ -1,4 +1,4 @@
-\* intended design: no counter roll-back on unprotected responses. Authentic must hold.
+\* intended design: no counter roll-back on unprotected responses. All invariants must hold.
 CONSTANTS
   M = 16
   MaxEx = 3
@@ -8,4 +8,5 @@ CONSTANTS
   NakedRollback = FALSE
   AdvBudget = 3
 SPECIFICATION Spec
+VIEW View
 INVARIANTS Authentic Lockstep HonestDelivers NoCounterReuse
